@@ -712,6 +712,25 @@ static void Regress()
    RX("numeric-nondigit-subject", "<4000000000->", "-3", 0); RX("numeric-nondigit-subject", "<4000000000->", "-1", 0); RX("numeric-nondigit-subject", "<4294967295>", "-1", 0);
    RX("numeric-nondigit-subject", "~<1-10,20->", "+5", 1); RX("numeric-nondigit-subject", "~<1-10,20->", " 5", 1); RX("numeric-nondigit-subject", "~<1-10,20->", "", 1); RX("numeric-nondigit-subject", "~<1-10,20->", "abc", 1); RX("numeric-nondigit-subject", "~<1-10,20->", "5", 0); RX("numeric-nondigit-subject", "~<1-10,20->", "15", 1);
    RX("numeric-nondigit-subject", "<1-10>", "5", 1); RX("numeric-nondigit-subject", "<1-10>", "005", 1); RX("numeric-nondigit-subject", "<->", "5", 1); RX("numeric-nondigit-subject", "<1-3,->", "77", 1); RX("numeric-nondigit-subject", "<->", "+5", -1); RX("numeric-nondigit-subject", "<1-3,->", "abc", -1);
+   vh::begin_case(9);   // object reuse: after the final SetPattern() a used object is indistinguishable from a fresh one (seeded C15-5: SegmentedStringMatcher kept _negate)
+   { SegmentedStringMatcher m("~foo/b*"); const bool n1 = m.IsNegate(); (void)m.SetPattern("foo/b*"); vh::stat("regress_checks");
+     if (!n1 || m.IsNegate() || !m.Match("foo/bar", false) || m.Match("foo/qux", false) || m.Match("fob/bar", false) || m.Match("foo/bar/baz", false) || !m.Match("foo/bar/baz", true)) vh::viol("regress|object-reuse", vh::fmt("SegmentedStringMatcher ~foo/b* then foo/b*: IsNegate()=%d Match(foo/bar)=%d Match(foo/qux)=%d", (int)m.IsNegate(), (int)m.Match("foo/bar", false), (int)m.Match("foo/qux", false)));
+     SegmentedStringMatcher m2("x/y"); m2.SetNegate(true); (void)m2.SetPattern("x/y"); vh::stat("regress_checks"); if (m2.IsNegate() || !m2.Match("x/y", false)) vh::viol("regress|object-reuse", "SegmentedStringMatcher SetNegate(true) then SetPattern(x/y)");
+     SegmentedStringMatcher m3("a:b*", true, ":"); (void)m3.SetPattern("a/b*"); vh::stat("regress_checks"); if (m3.GetSeparatorChars() != "/" || !m3.Match("a/bc", false) || m3.Match("a:bc", false)) vh::viol("regress|object-reuse", "SegmentedStringMatcher separators ':' then default");
+     SegmentedStringMatcher m4("a(b/c"); (void)m4.SetPattern("a/c"); vh::stat("regress_checks"); if (!m4.Match("a/c", false) || m4.Match("a/d", false)) vh::viol("regress|object-reuse", "SegmentedStringMatcher rejected pattern then a/c");
+     { SegmentedStringMatcherRef r1 = GetSegmentedStringMatcherFromPool("~p/q"); SegmentedStringMatcherRef keep = GetSegmentedStringMatcherFromPool(); r1.Reset(); SegmentedStringMatcherRef r2 = GetSegmentedStringMatcherFromPool("p/q"); vh::stat("regress_checks"); if (r2() == NULL || r2()->IsNegate() || !r2()->Match("p/q", false) || r2()->Match("p/r", false)) vh::viol("regress|object-reuse", "pooled SegmentedStringMatcher ~p/q, released, then p/q"); } }
+   { StringMatcher m; (void)m.SetPattern("~a*"); (void)m.SetPattern("a*"); vh::stat("regress_checks"); if (m.IsNegate() || !m.Match("ab") || m.Match("xb")) vh::viol("regress|object-reuse", "StringMatcher ~a* then a*");
+     StringMatcher r; (void)r.SetPattern("<1-3>"); (void)r.SetPattern("a*"); vh::stat("regress_checks"); if (r.Match("2") || !r.Match("ab") || r.ToString() != "a*") vh::viol("regress|object-reuse", "StringMatcher <1-3> then a*");
+     StringMatcher r2; (void)r2.SetPattern("<1-3>"); (void)r2.SetPattern("a.b", false); vh::stat("regress_checks"); if (r2.Match("2") || !r2.Match("axb")) vh::viol("regress|object-reuse", "StringMatcher <1-3> then regex a.b (isSimple=false)");
+     StringMatcher r3; (void)r3.SetPattern("<1-3>"); (void)r3.SetPattern(""); (void)r3.SetPattern("z*"); vh::stat("regress_checks"); if (r3.Match("2") || !r3.Match("zz")) vh::viol("regress|object-reuse", "StringMatcher <1-3>, empty pattern, z*");
+     StringMatcher f; (void)f.SetPattern("a(b"); (void)f.SetPattern("ab"); vh::stat("regress_checks"); if (!f.Match("ab") || f.Match("a(b") || !f.IsPatternUnique()) vh::viol("regress|object-reuse", "StringMatcher rejected a(b then ab");
+     StringMatcher x; (void)x.SetPattern("a.b", false); (void)x.SetPattern("a.b"); vh::stat("regress_checks"); if (x.Match("axb") || !x.Match("a.b") || !x.IsSimple()) vh::viol("regress|object-reuse", "StringMatcher regex a.b then simple a.b");
+     StringMatcher n; (void)n.SetPattern("q"); n.SetNegate(true); (void)n.SetPattern("q"); vh::stat("regress_checks"); if (n.IsNegate() || !n.Match("q")) vh::viol("regress|object-reuse", "StringMatcher SetNegate(true) then SetPattern(q)");
+     StringMatcher c1("~k*"); StringMatcher c2("<4-6>"); c1 = c2; vh::stat("regress_checks"); if (c1.IsNegate() || !c1.Match("5") || c1.Match("kk") || c1.Match("x")) vh::viol("regress|object-reuse", "StringMatcher ~k* assigned from <4-6>");
+     StringMatcher c3("<4-6>"); StringMatcher c4("k*"); c3 = c4; vh::stat("regress_checks"); if (c3.Match("5") || !c3.Match("kk")) vh::viol("regress|object-reuse", "StringMatcher <4-6> assigned from k*");
+     { StringMatcherRef keep = GetStringMatcherFromPool(); { StringMatcherRef p1 = GetStringMatcherFromPool("<1-3>"); } StringMatcherRef p2 = GetStringMatcherFromPool("a*"); vh::stat("regress_checks"); if (p2() == NULL || p2()->Match("2") || !p2()->Match("ab")) vh::viol("regress|object-reuse", "pooled StringMatcher <1-3>, released, then a*");
+       { StringMatcherRef p3 = GetStringMatcherFromPool("~x"); } StringMatcherRef p4 = GetStringMatcherFromPool("y"); vh::stat("regress_checks"); if (p4() == NULL || p4()->IsNegate() || !p4()->Match("y") || p4()->Match("z")) vh::viol("regress|object-reuse", "pooled StringMatcher ~x, released, then y");
+       { StringMatcherRef p5 = GetStringMatcherFromPool(); if (p5()) { (void)p5()->SetPattern("<7-9>"); } } StringMatcherRef p6 = GetStringMatcherFromPool(); if (p6()) { (void)p6()->SetPattern("b.c", false); vh::stat("regress_checks"); if (p6()->Match("8") || !p6()->Match("bxc")) vh::viol("regress|object-reuse", "pooled StringMatcher <7-9>, released, then regex b.c"); } } }
    vh::begin_case(5);   // the probe table of 55 edge patterns; -1 = outside the documented syntax (scope guards of DESIGN.md C15): run, not judged
    RX("edge-table", "<19-21>", " 20", 0); RX("edge-table", "<19-21>", "+20", 0); RX("edge-table", "<-5>", "3", 1); RX("edge-table", "<7->", "99999999999", -1); RX("edge-table", "<19-21,25>", "25", 1); RX("edge-table", "<19-21>", "", 0); RX("edge-table", "~<19-21>", "abc", 1);
    RX("edge-table", "a,b", "a", 1); RX("edge-table", "a,b", "b", 1); RX("edge-table", "a,b", "a,b", 0); RX("edge-table", "a,b", "ab", 0); RX("edge-table", "a\\,b", "a,b", 1); RX("edge-table", "a\\,b", "a", 0); RX("edge-table", "(a|b)c", "bc", 1); RX("edge-table", "(a|b)c", "abc", 0);
